@@ -314,7 +314,7 @@ M("esc3-aclose-deleted", "C06", GL, "    try:\n        # Clean up the asyncgen s
 M("esc3-coro-close-deleted", "C06", GL, "    coro_wrapper_type = type(coro.__await__())\n    coro.close()\n", "    coro_wrapper_type = type(coro.__await__())\n", "ESC-3")
 M("asend1-memo-by-id", "C03", GL, "        for referent in gc.get_referents(aw):\n            if hasattr(referent, \"ag_frame\"):  # pragma: no branch\n                return referent\n",
   "        if id(aw) in _agen_memo:\n            return _agen_memo[id(aw)]\n        for referent in gc.get_referents(aw):\n            if hasattr(referent, \"ag_frame\"):  # pragma: no branch\n                _agen_memo[id(aw)] = referent\n                return referent\n",
-  ["IDKEY-1"], accept_analysis_error=True, extra=[("glue_lock = threading.Lock()\n", "glue_lock = threading.Lock()\n_agen_memo: dict = {}\n")])
+  ["ASEND-1"], accept_analysis_error=True, extra=[("glue_lock = threading.Lock()\n", "glue_lock = threading.Lock()\n_agen_memo: dict = {}\n")])
 M("esc3-asend-close-deleted", "C06", GL, "    asend_coro.close()\n", "", "ESC-3")
 M("null1-no-handler", "C06", L311, "                    try:\n                        # Read the PyObject* from memory and take a reference to it,\n                        # in one atomic operation\n                        obj = stack_ptr[i]\n                    except ValueError:\n                        # ctypes raises this if a PyObject* is NULL. We'll record\n                        # those as None.\n                        obj = None\n",
   "                    obj = stack_ptr[i]\n", "NULL-1")
